@@ -7,6 +7,7 @@
 #include <cds/sync/injecting_monitor.h>
 #include <cds/sync/lock_array.h>
 #include <cds/memory/vyukov_queue_pool.h>
+#include <map>
 #include <memory>
 #include <set>
 #include "../client.h"
@@ -55,27 +56,73 @@ struct ReentrantLocks : ILocks {
 };
 
 // pool that checks the two pool_monitor clauses: a lock is returned only when nobody holds it, and is never
-// handed to two nodes at once
+// handed to two nodes at once.
+// Named mode (hidden variant pool_monitor_named, trace tie of the Lean machine Algo/PoolMonitor/Replay): the pool is a
+// component outside the machine's vocabulary, so each call into it is ONE pseudo-event that tells which lock the pool chose:
+//     T <tid> A alloc pool P<k>      allocate() handed out lock k       (inside the spin-bit section of pool_monitor::lock)
+//     T <tid> A free pool P<k>       deallocate() took lock k back      (after the last store of pool_monitor::unlock)
+// k = index of the lock object inside the pool's preallocated block; heap locks (pool empty) are numbered cap, cap+1, … in
+// allocation order.  The pool's own atomic operations, the placement-new constructor of the lock and the is_locked() probe
+// below run quietly.  A heap lock is parked instead of deleted, so that its address (= its name) is never reused in a case.
 struct checked_pool {
     typedef cds::sync::spin value_type;
     cds::memory::vyukov_queue_pool<value_type> pool;
     std::set<value_type*> out;
     static std::string* problem;
+    static bool named;
+    size_t heap_count = 0;
+    std::map<value_type*, size_t> heap_id;
+    std::vector<value_type*> parked;
     explicit checked_pool( size_t n ) : pool( n ) {}
+    ~checked_pool() { for ( value_type* p : parked ) pool.deallocate( p, 1 ); }
+    size_t prealloc() const { return size_t( pool.m_pLast - pool.m_pFirst ); }
+    static std::string lock_name( size_t k ) { return "P" + std::to_string( k ); }
+    size_t id_of( value_type* p ) const
+    {
+        if ( pool.m_pFirst <= p && p < pool.m_pLast ) return size_t( p - pool.m_pFirst );
+        auto it = heap_id.find( p );
+        return it == heap_id.end() ? size_t( -1 ) : it->second;
+    }
     value_type* allocate( size_t n )
     {
+        if ( !named ) {
+            value_type* p = pool.allocate( n );
+            if ( !out.insert( p ).second && problem->empty()) *problem = "pool-lock-handed-out-twice";
+            return p;
+        }
+        pseudo_begin();
+        set_quiet( true );
         value_type* p = pool.allocate( n );
         if ( !out.insert( p ).second && problem->empty()) *problem = "pool-lock-handed-out-twice";
+        if ( !( pool.m_pFirst <= p && p < pool.m_pLast )) {
+            size_t k = prealloc() + heap_count++;
+            heap_id[p] = k;
+            reg_name( &p->m_spin, sizeof( p->m_spin ), lock_name( k ) + ".spin" );
+        }
+        set_quiet( false );
+        pseudo_end( "alloc", "pool", lock_name( id_of( p )));
         return p;
     }
     void deallocate( value_type* p, size_t n )
     {
+        if ( !named ) {
+            if ( p->is_locked() && problem->empty()) *problem = "pool-lock-returned-while-held";
+            out.erase( p );
+            pool.deallocate( p, n );
+            return;
+        }
+        pseudo_begin();
+        set_quiet( true );
         if ( p->is_locked() && problem->empty()) *problem = "pool-lock-returned-while-held";
         out.erase( p );
-        pool.deallocate( p, n );
+        if ( pool.m_pFirst <= p && p < pool.m_pLast ) pool.deallocate( p, n );
+        else parked.push_back( p );
+        set_quiet( false );
+        pseudo_end( "free", "pool", lock_name( id_of( p )));
     }
 };
 std::string* checked_pool::problem = nullptr;
+bool checked_pool::named = false;
 
 struct PoolMonitorLocks : ILocks {
     typedef cds::sync::pool_monitor<checked_pool> monitor_t;
@@ -83,15 +130,23 @@ struct PoolMonitorLocks : ILocks {
     std::string problem;
     std::unique_ptr<monitor_t> mon;
     node nodes[MAXL];
-    explicit PoolMonitorLocks( size_t cap )
+    explicit PoolMonitorLocks( size_t cap, bool named = false )
     {
         checked_pool::problem = &problem;
+        checked_pool::named = named;
         mon.reset( new monitor_t( cap ));
         for ( int i = 0; i < MAXL; ++i ) {
             char nm[32]; std::snprintf( nm, sizeof nm, "N%d.refspin", i );
             reg_name( &nodes[i].m_SyncMonitorInjection.m_RefSpin, 4, nm );
         }
+        if ( named ) {
+            checked_pool& cp = mon->m_Pool;
+            for ( size_t k = 0; k < cp.prealloc(); ++k )
+                reg_name( &cp.pool.m_pFirst[k].m_spin, sizeof( cp.pool.m_pFirst[k].m_spin ), checked_pool::lock_name( k ) + ".spin" );
+        }
     }
+    ~PoolMonitorLocks() { mon.reset(); checked_pool::named = false; }
+    size_t prealloc() const { return mon->m_Pool.prealloc(); }
     void lock( int l ) override { mon->lock( nodes[l] ); }
     bool try_lock( int ) override { return false; }
     void unlock( int l ) override
@@ -117,6 +172,14 @@ struct InjectingLocks : ILocks {
     struct node { monitor_t::node_injection m_SyncMonitorInjection; };
     monitor_t mon;
     node nodes[MAXL];
+    InjectingLocks()
+    {
+        // node n's monitor is the spin lock injected into node n: the Lean machine Algo/Spin with lock index = node index
+        for ( int i = 0; i < MAXL; ++i ) {
+            char nm[32]; std::snprintf( nm, sizeof nm, "L%d.spin", i );
+            reg_name( &nodes[i].m_SyncMonitorInjection.m_Lock.m_spin, sizeof( nodes[i].m_SyncMonitorInjection.m_Lock.m_spin ), nm );
+        }
+    }
     void lock( int l ) override { mon.lock( nodes[l] ); }
     bool try_lock( int ) override { return false; }
     void unlock( int l ) override { mon.unlock( nodes[l] ); }
@@ -126,7 +189,14 @@ struct ident_policy { size_t operator()( size_t h, size_t n ) const { return h %
 struct ArrayLocks : ILocks {
     typedef cds::sync::lock_array<cds::sync::spin, cds::sync::trivial_select_policy> arr_t;
     arr_t arr;
-    explicit ArrayLocks( size_t n ) : arr( n ) {}
+    explicit ArrayLocks( size_t n ) : arr( n )
+    {
+        // cell i of the array: the Lean machine Algo/LockArray
+        for ( size_t i = 0; i < n; ++i ) {
+            char nm[32]; std::snprintf( nm, sizeof nm, "L%d.spin", int( i ));
+            reg_name( &arr.m_arrLocks[i].m_spin, sizeof( arr.m_arrLocks[i].m_spin ), nm );
+        }
+    }
     void lock( int l ) override { arr.lock( size_t( l )); }
     bool try_lock( int l ) override { return arr.try_lock( size_t( l )) != arr_t::c_nUnspecifiedCell; }
     void unlock( int l ) override { arr.unlock( size_t( l )); }
@@ -155,6 +225,9 @@ struct Fixture {
         if ( variant == "spin" ) L.reset( new SpinLocks );
         else if ( variant == "reentrant" ) L.reset( new ReentrantLocks );
         else if ( variant == "pool_monitor" ) L.reset( new PoolMonitorLocks( 2 + c.index % 3 ));
+        // hidden variant (not in variants()): pool of `--cap` (default 2) preallocated locks, so that with 3 nodes the pool
+        // runs empty (heap fallback) and locks are reused; pool words named, pool calls reported as pseudo-events
+        else if ( variant == "pool_monitor_named" ) L.reset( new PoolMonitorLocks( size_t( c.optl( "cap", 2 )), true ));
         else if ( variant == "injecting" ) L.reset( new InjectingLocks );
         else if ( variant == "lock_array" ) L.reset( new ArrayLocks( size_t( nlocks )));
         else { std::fprintf( stderr, "unknown variant %s\n", variant.c_str()); std::exit( 2 ); }
@@ -162,6 +235,13 @@ struct Fixture {
     std::string spec() const
     {
         return std::string( variant == "reentrant" ? "rlock " : "lock " ) + std::to_string( nlocks );
+    }
+    // configuration the Lean machines need: number of preallocated pool locks / number of cells
+    std::string header_extra() const
+    {
+        if ( variant == "pool_monitor_named" ) return "cap=" + std::to_string( static_cast<PoolMonitorLocks*>( L.get())->prealloc());
+        if ( variant == "lock_array" ) return "size=" + std::to_string( nlocks );
+        return std::string();
     }
 
     // programs obey the locking discipline: unlock only what the thread holds; no blocking lock on a lock the
